@@ -82,21 +82,22 @@ func NewKey(owner string, alg uint8, flags uint16, n int) *Key {
 // SZone is one zone of the world.
 type SZone struct {
 	*vfmodel.Zone
-	Signed   bool
-	NSEC3    bool
-	KSK, ZSK *Key
-	Servers  []string          // IPv4 addresses of its authorities
-	NSHosts  []string          // NS target names, parallel to Servers
-	Parent   *SZone            // nil for the root
-	Children map[string]*SZone // delegation owner -> child zone
-	Targets  map[string]string // CNAME / DNAME owner -> target
-	TTL      uint32
-	TTLs     map[string]uint32 // "owner/TYPE" -> ttl
-	NegTTL   uint32
-	Incep    time.Time
-	Expir    time.Time
-	NoDS     bool // signed, but the parent publishes no DS: an island, provably insecure
-	WrongDS  bool // the parent publishes a DS that matches no key: bogus
+	Signed    bool
+	NSEC3     bool
+	KSK, ZSK  *Key
+	Servers   []string          // IPv4 addresses of its authorities
+	NSHosts   []string          // NS target names, parallel to Servers
+	Parent    *SZone            // nil for the root
+	Children  map[string]*SZone // delegation owner -> child zone
+	Targets   map[string]string // CNAME / DNAME owner -> target
+	TTL       uint32
+	TTLs      map[string]uint32 // "owner/TYPE" -> ttl
+	NegTTL    uint32
+	Incep     time.Time
+	Expir     time.Time
+	AOverride map[string]string // owner -> IPv4 for address records planted for other zones' NS hosts
+	NoDS      bool              // signed, but the parent publishes no DS: an island, provably insecure
+	WrongDS   bool              // the parent publishes a DS that matches no key: bogus
 
 	mu       sync.Mutex
 	sigCache map[string]*dns.RRSIG
@@ -176,6 +177,9 @@ func (z *SZone) RRset(owner string, t uint16) []dns.RR {
 		}
 		return out
 	case dns.TypeA:
+		if ip, ok := z.AOverride[owner]; ok {
+			return []dns.RR{&dns.A{Hdr: hdr, A: net.ParseIP(ip).To4()}}
+		}
 		for i, n := range z.NSHosts {
 			if n == owner {
 				return []dns.RR{&dns.A{Hdr: hdr, A: net.ParseIP(z.Servers[i]).To4()}}
